@@ -17,7 +17,8 @@ class C09(Prop):
             "definition is shared, then spydrnet.flatten.flatten; oracle = independent elaboration "
             "before (leaf occurrences by slash path, endpoint partition) against the flat top "
             "definition read directly after (children, definitions, data, partition of leaf pin bits and "
-            "top port bits), wf-core. non-trivial = hierarchy depth >= 2 and at least one net spanning "
+            "top port bits), wf-core; optionally a second stage: a definition that was a leaf in the first "
+            "flatten gets a child and a net through the API, then uniquify + flatten are judged again. non-trivial = hierarchy depth >= 2 and at least one net spanning "
             ">= 2 hierarchical wires (crosses a port boundary); distinct = distinct recipe JSON")
     ASSUMPTIONS = ["leaf = definition without children and without cables (Definition.is_leaf)",
                    "flatten/uniquify module-level counters are reset before each case",
